@@ -166,6 +166,10 @@ func (t *dateWithUTCTime) UnmarshalText(b []byte) error {
 	if err != nil {
 		return err
 	}
+	if len(b) != len(dateWithUTCTimeLayout) {
+		// time.Parse accepts a fractional second even if the layout has none
+		return fmt.Errorf("caldav: invalid date with UTC time %q: fractional second", b)
+	}
 	*t = dateWithUTCTime(tt)
 	return nil
 }
